@@ -33,6 +33,12 @@ pub fn boundary_values(id: u8, shape: char) -> Vec<PropSpec> {
     }
 }
 
+/// Both sides of every variable-byte-integer width boundary, and values inside each width.
+pub const VARINT_VALUES: [u32; 17] = [
+    64, 100, 127, 128, 8192, 12000, 16383, 16384, 131072, 200000, 1048576, 1500000, 2097151,
+    2097152, 3000000, 100000000, 268435455,
+];
+
 const CONTEXTS: [&str; 5] = ["publish", "subscribe", "unsubscribe", "disconnect", "will"];
 
 /// The request of `context` carrying `props`; for `will` the will goes into the configuration.
@@ -198,7 +204,7 @@ pub fn codec(out: &mut Out, count: u64) {
             g.push(Item::new(format!("sweep=property context={context} id={id:02x}"), cfg, req));
         }
     }
-    groups.push(g);
+    let property_group = g;
 
     // SUBSCRIBE options.
     let mut g = Vec::new();
@@ -237,7 +243,7 @@ pub fn codec(out: &mut Out, count: u64) {
             g.push(Item::new(format!("sweep=arena req={kind} need={need} tx=need{delta:+}"), cfg, req.clone()));
         }
     }
-    groups.push(g);
+    let arena_group = g;
 
     // Strings of 65535 and 65536 bytes.
     let mut g = Vec::new();
@@ -249,7 +255,94 @@ pub fn codec(out: &mut Out, count: u64) {
     }
     groups.push(g);
 
-    for (idx, item) in round_robin(groups, count as usize).iter().enumerate() {
+    // Variable byte integers: both sides of every width boundary and values inside each width.
+    let mut g = Vec::new();
+    for v in VARINT_VALUES {
+        let req = format!("subscribe 0b={v} {}", filter_text("v", 1, false, false, 0));
+        g.push(Item::new(format!("sweep=varint what=subid value={v}"), base.clone(), req));
+    }
+    groups.push(g);
+
+    // Remaining length driven by the payload size (127/128 and 16383/16384 are covered above).
+    let mut g = Vec::new();
+    for v in VARINT_VALUES {
+        if [127, 128, 16383, 16384].contains(&v) || v as usize + 64 > crate::parse::MAX_BUFFER as usize {
+            continue;
+        }
+        let mut cfg = base.clone();
+        cfg.tx = v as usize + 64;
+        // topic "t": 2 + 1 bytes, property length 1 byte.
+        let line = PubLine::simple(0, "t", &vec![0x61; v as usize - 4]).text();
+        g.push(Item::new(format!("sweep=varint what=remlen value={v}"), cfg, line));
+    }
+    groups.push(g);
+
+    // Property block length.
+    let mut g = Vec::new();
+    for v in VARINT_VALUES {
+        if v > 200_000 {
+            continue;
+        }
+        let mut left = v as usize;
+        let mut props = Vec::new();
+        // User properties with an empty key: 5 + n bytes each.
+        while left > 0 {
+            let size = if left > 65540 + 5 { 65540 } else { left };
+            if left <= 65538 && props.is_empty() {
+                props.push(PropSpec::Str(0x03, "c".repeat(left - 3)));
+                break;
+            }
+            props.push(PropSpec::Pair(String::new(), "u".repeat(size - 5)));
+            left -= size;
+        }
+        let mut cfg = base.clone();
+        cfg.tx = v as usize + 64;
+        let mut line = PubLine::simple(0, "t", b"p");
+        line.props = props;
+        g.push(Item::new(format!("sweep=varint what=proplen value={v}"), cfg, line.text()));
+    }
+    groups.push(g);
+
+    // Maximum QoS x requested QoS x downgrade x retain, with properties and correlation data;
+    // the publish goes out and is acknowledged.
+    let mut g = Vec::new();
+    for mq in [0u8, 1] {
+        for qos in 0..3u8 {
+            for dg in [false, true] {
+                for retain in [false, true] {
+                    let mut cfg = base.clone();
+                    cfg.dg = dg;
+                    let mut line = PubLine::simple(qos, "t/mq", b"mq");
+                    line.retain = retain;
+                    line.props = vec![PropSpec::U8(0x01, 1), PropSpec::Pair("k".into(), "v".into())];
+                    line.c1 = Some(vec![0xc0, 0xde]);
+                    let mut it = Item::new(
+                        format!("sweep=maxqos mq={mq} qos={qos} dg={} retain={}", dg as u8, retain as u8),
+                        cfg,
+                        line.text(),
+                    );
+                    it.connack = vec![PropSpec::U8(0x24, mq)];
+                    it.drain = true;
+                    g.push(it);
+                }
+            }
+        }
+    }
+    groups.push(g);
+
+    // The complete systematic groups first; the arena and property sweeps share the rest 2:1.
+    let count = count as usize;
+    let mut items = round_robin(groups, count);
+    let left = count - items.len();
+    let for_property = (left / 3).min(property_group.len());
+    let for_arena = (left - for_property).min(arena_group.len());
+    let pick = |group: Vec<Item>, n: usize| -> Vec<Item> {
+        let picks = stride(group.len(), n);
+        group.into_iter().enumerate().filter(|(i, _)| picks.contains(i)).map(|(_, it)| it).collect()
+    };
+    items.extend(pick(arena_group, for_arena));
+    items.extend(pick(property_group, for_property));
+    for (idx, item) in items.iter().enumerate() {
         item.emit(out, idx as u64);
     }
 }
@@ -438,6 +531,15 @@ pub fn invalid(out: &mut Out, count: u64) {
             }
         }
     }
+    // Subscription identifiers on both sides of every width boundary (0 and 2^28 are illegal).
+    for v in VARINT_VALUES.iter().copied().chain([0, 1, 268435456, u32::MAX]) {
+        let req = format!("subscribe 0b={v} {}", filter_text("v", 1, false, false, 0));
+        let mut it = Item::new(format!("case=subid value={v}"), base.clone(), req);
+        it.pre = inflight.clone();
+        it.connack = recv_max.clone();
+        it.drain = true;
+        extras.push(it);
+    }
     // Property kind x context x boundary value.
     let mut grid: Vec<Item> = Vec::new();
     for context in CONTEXTS {
@@ -455,9 +557,18 @@ pub fn invalid(out: &mut Out, count: u64) {
         }
     }
     let count = count as usize;
+    let mut idx = 0u64;
+    // The idle dead handle: it dies while nothing is queued.
+    for how in super::fam_fault::IDLE_WAYS {
+        if (idx as usize) < count {
+            let d = super::fam_fault::idle_dead(out.rng(9000 + idx), how);
+            out.emit(idx, "", &format!("case=idle-dead-handle how={how}"), &d);
+            idx += 1;
+        }
+    }
+    let count = count - idx as usize;
     let left = count.saturating_sub(extras.len());
     let picks = stride(grid.len(), left);
-    let mut idx = 0u64;
     for it in extras.iter().take(count) {
         it.emit(out, idx);
         idx += 1;
